@@ -22,10 +22,10 @@ func init() { modes["C13"] = runC13 }
 type numKind struct {
 	name   string
 	lo, hi *big.Int
-	mk     func(v *big.Int) interface{}      // a Go value of this kind holding v
-	ptr    func(v *big.Int) interface{}      // a pointer to such a value
-	dest   func() interface{}                // a fresh *T destination
-	read   func(d interface{}) *big.Int      // the value stored in the destination
+	mk     func(v *big.Int) interface{} // a Go value of this kind holding v
+	ptr    func(v *big.Int) interface{} // a pointer to such a value
+	dest   func() interface{}           // a fresh *T destination
+	read   func(d interface{}) *big.Int // the value stored in the destination
 }
 
 func bi(s string) *big.Int { v, _ := new(big.Int).SetString(s, 10); return v }
@@ -39,7 +39,11 @@ func numKinds() []numKind {
 		}
 		return numKind{name, lo, hi,
 			func(v *big.Int) interface{} { return mk(v).Interface() },
-			func(v *big.Int) interface{} { p := reflect.New(mk(v).Type()); p.Elem().Set(mk(v)); return p.Interface() },
+			func(v *big.Int) interface{} {
+				p := reflect.New(mk(v).Type())
+				p.Elem().Set(mk(v))
+				return p.Interface()
+			},
 			func() interface{} { return reflect.New(zero().Type()).Interface() },
 			func(d interface{}) *big.Int {
 				e := reflect.ValueOf(d).Elem()
@@ -80,12 +84,12 @@ func numKinds() []numKind {
 }
 
 type numCodec struct {
-	name   string
-	codec  datacodec.Codec
-	lo, hi *big.Int // nil = unbounded
-	toFn   string   // name of the convertTo* table
-	fromFn string
-	temporal bool   // date/time/timestamp: numbers go through the integer tables; strings are layouts, not numbers
+	name     string
+	codec    datacodec.Codec
+	lo, hi   *big.Int // nil = unbounded
+	toFn     string   // name of the convertTo* table
+	fromFn   string
+	temporal bool // date/time/timestamp: numbers go through the integer tables; strings are layouts, not numbers
 }
 
 func candidates(r *lp.Rng) []*big.Int {
@@ -120,6 +124,45 @@ func inR(v, lo, hi *big.Int) bool {
 	return (lo == nil || v.Cmp(lo) >= 0) && (hi == nil || v.Cmp(hi) <= 0)
 }
 
+type (
+	namedI8   int8
+	namedI16  int16
+	namedI32  int32
+	namedI64  int64
+	namedInt  int
+	namedU8   uint8
+	namedU16  uint16
+	namedU32  uint32
+	namedU64  uint64
+	namedUint uint
+)
+
+type namedDest struct {
+	kind string
+	ptr  interface{}
+	read func() *big.Int
+}
+
+func namedIntDests() []namedDest {
+	var a namedI8
+	var b namedI16
+	var c namedI32
+	var d namedI64
+	var e namedInt
+	var f namedU8
+	var g namedU16
+	var h namedU32
+	var i namedU64
+	var j namedUint
+	return []namedDest{
+		{"int8", &a, func() *big.Int { return big.NewInt(int64(a)) }}, {"int16", &b, func() *big.Int { return big.NewInt(int64(b)) }},
+		{"int32", &c, func() *big.Int { return big.NewInt(int64(c)) }}, {"int64", &d, func() *big.Int { return big.NewInt(int64(d)) }},
+		{"int", &e, func() *big.Int { return big.NewInt(int64(e)) }}, {"uint8", &f, func() *big.Int { return new(big.Int).SetUint64(uint64(f)) }},
+		{"uint16", &g, func() *big.Int { return new(big.Int).SetUint64(uint64(g)) }}, {"uint32", &h, func() *big.Int { return new(big.Int).SetUint64(uint64(h)) }},
+		{"uint64", &i, func() *big.Int { return new(big.Int).SetUint64(uint64(i)) }}, {"uint", &j, func() *big.Int { return new(big.Int).SetUint64(uint64(j)) }},
+	}
+}
+
 func runC13(res *lp.Result) {
 	res.Rule = "every pair (CQL integer type in {bigint, counter, int, smallint, tinyint, varint}, Go type in {int, int8..int64, uint, " +
 		"uint8..uint64, *big.Int, string}) by value and by pointer, in both directions, at and around every power-of-two boundary " +
@@ -145,7 +188,11 @@ func runC13(res *lp.Result) {
 		return ""
 	}
 	var lines, expect, descr []string
-	ask := func(l, want, d string) { lines = append(lines, l); expect = append(expect, want); descr = append(descr, d) }
+	ask := func(l, want, d string) {
+		lines = append(lines, l)
+		expect = append(expect, want)
+		descr = append(descr, d)
+	}
 	i64lo, i64hi := bi("-9223372036854775808"), bi("9223372036854775807")
 	codecs := []numCodec{
 		{"bigint", datacodec.Bigint, i64lo, i64hi, "convertToInt64", "convertFromInt64", false},
@@ -318,6 +365,15 @@ func runC13(res *lp.Result) {
 						want = "ok " + v.String()
 					}
 					ask(fmt.Sprintf("conv %s %s", h, v), want, id)
+				}
+			}
+			// destinations of user-defined integer types (type UserId uint64 …): whether the codec takes them is its choice, but if it
+			// does, the number that arrives is the number that was sent
+			for _, nd := range namedIntDests() {
+				res.Count("decode/" + c.name + "/named-type")
+				if wasNull, derr := c.codec.Decode(enc, nd.ptr, v4); derr == nil && !wasNull && nd.read().Cmp(v) != 0 {
+					res.Add(lp.Finding{Kind: "violation", What: fmt.Sprintf("%s decodes into a pointer to a named %s type a different number", c.name, nd.kind),
+						Input: fmt.Sprintf("decode %s -> *(type T %s) %s", c.name, nd.kind, v), Impl: nd.read().String()})
 				}
 			}
 			var s string
